@@ -802,6 +802,22 @@ def translate_disease(src, name):
     L.append(f'/-- some translated method calls `people.request_death` -/')
     L.append(f'def requestsDeath : Bool := {"true" if requests else "false"}')
     facts['has_step_die'] = bool(sd['sets']); facts['requests_death'] = requests
+    # does every infection record the current step in ti_infected?  (new_infections counts `ti_infected == ti`)
+    NOW = {'self.ti', 'self.t.ti', 'self.sim.ti'}
+    writes = [t for t in facts['methods']['set_prognoses']['timers'] if t['array'] == 'ti_infected']
+    state = None
+    for w in writes:
+        full = w['mask'] == 'g.p_uids' and w['op'] == '='
+        now = w['rhs'] in NOW and w['op'] == '='
+        if full: state = now
+        elif not now: state = False
+    if state is None:
+        raise ExtractError(f'{cls}.set_prognoses never assigns ti_infected for the infected agents')
+    L.append('/-- every agent passed to `set_prognoses` leaves it with `ti_infected` = the current step; writes in order: ' +
+             '; '.join(f"{w['file']}:{w['line']} ti_infected[{w['mask']}] {w['op']} {w['rhs']}" for w in writes).replace('-/', '- /') + ' -/')
+    L.append(f'def infectionTimeIsNow : Bool := {"true" if state else "false"}')
+    facts['infection_time_is_now'] = bool(state)
+    facts['ti_infected_writes'] = writes
     # infectious
     tr.ops = []; tr.atoms = []; tr.nvar = 0; tr.writes = {}; tr.timers = []; tr.events = []; tr.pc = []; tr.depth = 0; tr.path = []
     tr.cur_file = ''
